@@ -160,9 +160,19 @@ def __init__(self, num_antennas, sample_rate=3*u.GHz, fch1=0*u.GHz, ascending=Tr
     # ---- D2/D3 the delayed background
     ctx.clause = 'D2'
     gs = ctx.func(MA + 'get_samples')
-    (r, I), (rr, IR) = agree_ref(ctx, gs, REF_GET, 'get_samples: over-read by max_delay on the first request, per-antenna slice / cache, '
-                                 'both polarisations alike', what=('return', 'attrstores', 'calls', 'substores'), max_depth=0,
-                                 expand=False)
+    # (precondition: delay_i <= max_delay for every antenna, established by __init__ -- C15-D1)
+    from .common import delay_within_max
+    T.GE0_PATTERNS.append(delay_within_max)
+    had_ns = 'num_samples' in T.POSITIVE
+    T.POSITIVE.add('num_samples')           # (a request is asserted to be longer than max_delay >= 0)
+    try:
+        (r, I), (rr, IR) = agree_ref(ctx, gs, REF_GET, 'get_samples: over-read by max_delay on the first request, per-antenna slice / cache, '
+                                     'both polarisations alike', what=('return', 'attrstores', 'calls', 'substores'), max_depth=0,
+                                     expand=False)
+    finally:
+        T.GE0_PATTERNS.remove(delay_within_max)
+        if not had_ns:
+            T.POSITIVE.discard('num_samples')
     def bg_slice(e):
         """a local bound to a slice of a shared background stream's samples: self.bg_x.v[lo:hi] / self.bg_y.v[lo:hi]"""
         va = e.data['value'].single_atom()
